@@ -8,6 +8,11 @@
      radv <x> <sf> <dev> <cat> <sn> <cn> <cv> <sh>       -> <hex>   (render_adv)
      defm <sym> <name> <type> <addrs> <port> <txt>  -> ok    (remember an mDNS service info)
      defb <sym> <hex|none>                          -> ok    (remember BLE manufacturer data)
+     nseq <guard 0|1> <pairs> ev ...   complete scanner callback incl. encrypted notifications
+        pairs = - | idhex:key01:sn|none:db;..   db = none | empty | iid=fmt,..
+        ev = <mdhex|none>~<opens>   opens = . | n=pthex,..   (state numbers at which the payload decrypts)
+        -> per event  <notification result>/<raised 0|1>/<state number of every pairing>
+     utf8 <hex> -> 1 | 0
      sched <mdns|ble|bleorig|blenoguard|agg> ev ...
         one group per harness event, group = ev+ev+..,
         ev = F.<k>.<idhex>.<tau> | A.<sym> | AM.<sym> | AB.<sym> | C.<k> | T.<delta> | L.<idhex>.<0|1>
@@ -122,7 +127,43 @@ let sched_agg groups =
   let (cells, raised) = run_groups stepf groups in
   canon_answer cells raised (discs_str !a.a_ip.discs ^ " / " ^ discs_str !a.a_ble.discs)
 
+(* ---- encrypted notifications through the complete scanner callback *)
+let fmt_of = function
+  | "bool" -> Find.FBool | "u8" -> Find.FU8 | "u16" -> Find.FU16 | "u32" -> Find.FU32 | "u64" -> Find.FU64
+  | "int" -> Find.FInt | "float" -> Find.FFloat | "string" -> Find.FString | _ -> Find.FOther
+let npair_of tok = match Stdlib.String.split_on_char ':' tok with
+  | [i; k; sn; db] ->
+    (bytes_of_hex i,
+     { Find.np_key = (k = "1"); np_sn = (if sn = "none" then None else Some (n_of_dec sn));
+       np_db = (if db = "none" then None else if db = "empty" then Some [] else
+                  Some (Stdlib.List.map (fun c -> match Stdlib.String.split_on_char '=' c with
+                      | [a; f] -> (ni a, fmt_of f) | _ -> failwith "db") (Stdlib.String.split_on_char ',' db))) })
+  | _ -> failwith "npair"
+let opens_of s = if s = "." then [] else
+    Stdlib.List.map (fun c -> match Stdlib.String.split_on_char '=' c with
+        | [n; h] -> (n_of_dec n, bytes_of_hex h) | _ -> failwith "opens") (Stdlib.String.split_on_char ',' s)
+let nres_str = function
+  | None -> "x"
+  | Some r -> (match r with
+      | Find.NNoKey -> "nokey" | Find.NNoDescription -> "nodesc" | Find.NUndecryptable -> "undec"
+      | Find.NStale -> "stale" | Find.NMismatch -> "mismatch"
+      | Find.NDelivered i -> "deliv:" ^ dec_of_n i | Find.NPoll i -> "poll:" ^ dec_of_n i
+      | Find.NDropped i -> "drop:" ^ dec_of_n i | Find.NRaisedOut -> "raised")
+let nseq guard pairs evs =
+  let s = ref Find.st0 and nps = ref (if pairs = "-" then [] else Stdlib.List.map npair_of (Stdlib.String.split_on_char ';' pairs)) in
+  Stdlib.String.concat " " (Stdlib.List.map (fun ev ->
+      match Stdlib.String.split_on_char '~' ev with
+      | [md; op] ->
+        let (((s', nps'), outs), r) = Find.ble_callback_full Find.ble_cfg (guard = "1") !s !nps (opens_of op) (md_of md) in
+        s := s'; nps := nps';
+        Printf.sprintf "%s/%d/%s" (nres_str r) (if Stdlib.List.mem Find.Raised outs then 1 else 0)
+          (Stdlib.String.concat "," (Stdlib.List.map (fun (_, (p : Find.npair)) ->
+               match p.np_sn with None -> "none" | Some n -> dec_of_n n) !nps))
+      | _ -> failwith "nseq event") evs)
+
 let handle = function
+  | "nseq" :: guard :: pairs :: evs -> nseq guard pairs evs
+  | ["utf8"; h] -> if Find.utf8_ok (bytes_of_hex h) then "1" else "0"
   | ["psvc"; name; ty; addrs; port; txt] -> res_str svc_str (Find.from_service_info (svc_of name ty addrs port txt))
   | ["padv"; h] -> res_str adv_str (Find.adv_parse (md_of h))
   | ["pnot"; h] -> res_str not_str (Find.notif_parse (md_of h))
